@@ -9,7 +9,7 @@ CHUNK = 40
 
 
 def describe(tier):
-    n = 5 if tier == 'quick' else 8
+    n = 6 if tier == 'quick' else 8
     return {
         'rule': 'case = (scheme, configuration point of G(S) - including every point where a width differs from the default the '
                 'fixed-offset parsers could wrongly assume -, every partition of every N<=%d in both orders + boundary profiles <=40, '
@@ -25,7 +25,7 @@ def describe(tier):
 
 
 def case_list(name, label, cfg, tier):
-    n = 5 if tier == 'quick' else 8
+    n = 6 if tier == 'quick' else 8
     cases = [(p, 6, 'disjoint') for p in domains.profiles(n)]
     cases += [(p, 1, 'shared') for p in domains.profiles(3)]
     lens = [v for v in domains.around(sse.special_lengths(name, cfg, tier)) if v <= 40]
@@ -36,10 +36,10 @@ def case_list(name, label, cfg, tier):
 
 
 def units(tier, seed):
-    return sse.make_units(case_list, tier, CHUNK)
+    return sse.make_units(case_list, tier, CHUNK) + [('sweep/%s' % name, {'sweep': name}) for name in sse.SCHEMES]
 
 
-def run_case(r, seed, name, label, cfg, profile, kwlen, relation):
+def run_case(r, seed, name, label, cfg, profile, kwlen, relation, cache=None):
     case = {'scheme': name, 'label': label, 'cfg': cfg, 'profile': profile, 'kwlen': kwlen, 'relation': relation}
     core.note_case(case)
     db, cfg1, g = sse.build_db(seed, name, label, cfg, profile, kwlen, 'disjoint' if relation.startswith('keypattern') else relation)
@@ -48,7 +48,7 @@ def run_case(r, seed, name, label, cfg, profile, kwlen, relation):
     L = sse.loader(name)
     r['states'] += 1
     try:
-        client = L.SSEScheme(cfg1)
+        client = sse.shared_scheme(cache, L, cfg1, 'client') if cache is not None else L.SSEScheme(cfg1)
         if relation.startswith('keypattern:'):
             det.pattern_urandom(relation.split(':', 1)[1], seed, name, label)
             r.count('patterned-keys')
@@ -70,8 +70,12 @@ def run_case(r, seed, name, label, cfg, profile, kwlen, relation):
     except Exception as e:
         bad('config-json', type(e).__name__, case, 'configuration survives JSON', core.exc_text(e)); return
     try:
-        server = L.SSEScheme(cfg_wire)
-        client2 = L.SSEScheme(copy.deepcopy(cfg_wire))
+        if cache is not None:
+            server = sse.shared_scheme(cache, L, cfg_wire, 'server')
+            client2 = sse.shared_scheme(cache, L, cfg_wire, 'client2')
+        else:
+            server = L.SSEScheme(cfg_wire)
+            client2 = L.SSEScheme(copy.deepcopy(cfg_wire))
     except Exception as e:
         bad('config-rebuild-raises', core.exc_site(e), case, 'scheme instantiates from the JSON round trip', core.exc_text(e)); return
     kser = key.serialize()
@@ -129,16 +133,47 @@ def run_case(r, seed, name, label, cfg, profile, kwlen, relation):
         r.sample({'scheme': name, 'cfg_point': label, 'profile': profile, 'wire': ['json(cfg)', 'Key.serialize', 'EDB.serialize', 'Token.serialize', 'Result.serialize']})
 
 
+def run_sweep(r, seed, name, tier):
+    """ALL configuration points of one scheme in ONE process, forwards and then backwards, a few databases each: state that
+    outlives a scheme object (class attributes, module-level caches keyed too coarsely) is carried from one configuration
+    to the next deterministically, whatever the pool's assignment of units to processes"""
+    pts = sse.grid(name, tier)
+    for rnd, seq in enumerate((pts, pts[::-1])):
+        for label, cfg in seq:
+            for prof in ([2, 1], [5], [1, 1, 3]):
+                if sse.valid_profile(name, cfg, prof):
+                    n0 = len(r['violations'])
+                    run_case(r, seed, name, label, cfg, prof, 6, 'disjoint')
+                    for v in r['violations'][n0:]:
+                        v['case']['sweep'] = True
+                    r.count('sweep-cases')
+
+
 def run_unit(p, tier, seed):
     r = core.Result()
+    if 'sweep' in p:
+        run_sweep(r, seed, p['sweep'], tier)
+        det.restore()
+        return r
     name, label, cfg = p['scheme'], p['label'], p['cfg']
-    for profile, kwlen, relation in case_list(name, label, cfg, tier)[p['lo']:p['hi']]:
-        run_case(r, seed, name, label, cfg, profile, kwlen, relation)
+    cache = {}
+    for i, (profile, kwlen, relation) in enumerate(case_list(name, label, cfg, tier)[p['lo']:p['hi']]):
+        n0 = len(r['violations'])
+        run_case(r, seed, name, label, cfg, profile, kwlen, relation, cache=cache)
+        for v in r['violations'][n0:]:
+            v['case']['unit'] = core.enc({'tier': tier, 'lo': p['lo'], 'index': i})
     det.restore()
     return r
 
 
 def replay(case, seed):
+    if case.get('sweep'):
+        full = run_unit({'sweep': case['scheme']}, 'quick', seed)
+        return [v for v in full['violations'] if core.dec(v['case']).get('label') == case['label']]
+    u = case.get('unit')
+    if u:
+        full = run_unit({'scheme': case['scheme'], 'label': case['label'], 'cfg': case['cfg'], 'lo': u['lo'], 'hi': u['lo'] + u['index'] + 1}, u['tier'], seed)
+        return [v for v in full['violations'] if core.dec(v['case']).get('profile') == case['profile']]
     r = core.Result()
     run_case(r, seed, case['scheme'], case['label'], case['cfg'], case['profile'], case['kwlen'], case['relation'])
     return r['violations']
